@@ -145,6 +145,24 @@ def one_case(run, cfg):
                  f"{np.array_equal(np.isnan(a), np.isnan(b))}, max diff "
                  f"{np.max(np.abs(a[m] - b[m])) if m.any() else None}, "
                  f"fmax {fmax})")
+        if rtype == "relative cp" and not noise:
+            # (noise-free: both fits select the same points)
+            step = span / 150
+            if abs(fk["xmin"] - f1["xmin"]) > 1.5 * step or \
+                    abs(fk["xmax"] - f1["xmax"]) > 1.5 * step:
+                fail(f"xmin/xmax {fk['xmin']!r}/{fk['xmax']!r} with k = {k}, "
+                     f"{f1['xmin']!r}/{f1['xmax']!r} with k = 1",
+                     "C11_unscale")
+            rgk = np.asarray(ik["fit range"]).astype(bool)
+            xk_ = np.asarray(ik["tip position"])[rgk]
+            if rgk.any() and not (
+                    math.isclose(fk["xmin"], float(xk_.min()), rel_tol=1e-12)
+                    and math.isclose(fk["xmax"], float(xk_.max()),
+                                     rel_tol=1e-12)):
+                fail(f"xmin/xmax {fk['xmin']!r}/{fk['xmax']!r} are not the "
+                     f"extremes {float(xk_.min())!r}/{float(xk_.max())!r} of "
+                     "the points in 'fit range' (measured units)",
+                     "C11_unscale")
         if rtype == "absolute":
             if not (math.isclose(fk["xmin"], f1["xmin"], rel_tol=1e-15,
                                  abs_tol=0)
